@@ -8,7 +8,7 @@ def run(tier, seed, t0):
     return _sess.run_session_check(
         PROP, tier, seed, t0,
         families=[("connclose", 500, 8000), ("consumer", 100, 1500), ("close_slow", 6, 48), ("reply_then_close", 150, 2500),
-                  ("connclose_cross", 150, 2500), ("midframe_close", 60, 1000), ("close_window", 60, 1000), ("mixed", 150, 2000)],
+                  ("connclose_cross", 150, 2500), ("midframe_close", 60, 1000), ("close_window", 60, 1000), ("cancel_close_race", 9, 90), ("mixed", 150, 2000)],
         own_kinds=('connclose', 'backlog-midframe', 'listener-closewindow'),
         mc_jobs=[("MC_Conn_close_q.cfg", None, "quick"), ("MC_Conn_close.cfg", None, "thorough"),
                  ("MC_Conn_close_bug.cfg", "SealedShrinks", None),
